@@ -152,4 +152,58 @@ theorem undefined_reported (fuel : Nat) (tbl : Methods) (g : Inh) (bc : List Str
     rw [hk.2.2] at hno
     cases hno
 
+
+/-! ### Ancestor order: Object is searched last -/
+
+theorem addParent_before_object (xs : List Node) (p : Node) (hx : ∀ x ∈ xs, (x == objectNode) = false) :
+    addParent (xs ++ [objectNode]) p = xs ++ [p, objectNode] := by
+  induction xs with
+  | nil => simp [addParent]
+  | cons x rest ih =>
+    have hx0 : (x == objectNode) = false := hx x (by simp)
+    simp only [List.cons_append, addParent, hx0]
+    rw [ih (fun y hy => hx y (by simp [hy]))]
+    simp
+
+/-- **Registration order is search order, with Object last**: a class registers Object first and then its
+explicit ancestors one by one (`AddParentNode`); the resulting list is the explicit ancestors in
+registration order followed by Object — for every number of ancestors. -/
+theorem explicit_ancestors_before_object (ps : List Node) (hp : ∀ x ∈ ps, (x == objectNode) = false) :
+    ps.foldl addParent [objectNode] = ps ++ [objectNode] := by
+  suffices h : ∀ (done : List Node), (∀ x ∈ done, (x == objectNode) = false) →
+      ps.foldl addParent (done ++ [objectNode]) = done ++ ps ++ [objectNode] by
+    simpa using h [] (by simp)
+  induction ps with
+  | nil => intro done _; simp
+  | cons p rest ih =>
+    intro done hd
+    simp only [List.foldl_cons]
+    rw [addParent_before_object done p hd]
+    have : done ++ [p, objectNode] = (done ++ [p]) ++ [objectNode] := by simp
+    rw [this, ih (fun y hy => hp y (by simp [hy])) (done ++ [p])]
+    · simp
+    · intro x hx
+      rcases List.mem_append.mp hx with h | h
+      · exact hd x h
+      · simp at h; subst h; exact hp x (by simp)
+
+/-- **An override in the superclass wins over Object's method**: for a class that registered Object and then
+its superclass, a method the superclass defines is resolved to the superclass's definition — whatever
+Object (frame `Builtin`, class `""`) defines under the same name. -/
+theorem superclass_override_wins (fuel : Nat) (tbl : Methods) (g : Inh) (bc : List Str) (frame cls method : Str) (isPrivate : Bool)
+    (pf pc : Str)
+    (hne : (({ frame := pf, cls := pc } : Node) == objectNode) = false)
+    (hself : has tbl (methodKey frame cls method isPrivate) = false)
+    (hg : parentsOf g frame cls = [({ frame := pf, cls := pc } : Node)].foldl addParent [objectNode])
+    (hp : has tbl (methodKey pf pc method isPrivate) = true) :
+    getMethodT (fuel + 1) tbl g bc frame cls method isPrivate = some (methodKey pf pc method isPrivate) := by
+  rw [explicit_ancestors_before_object _ (by intro x hx; simp at hx; subst hx; exact hne)] at hg
+  exact superclass_found fuel tbl g bc frame cls method isPrivate pf pc [objectNode] hself hg hp
+
+/-- non-vacuity: superclass and an included module registered after Object end up ahead of it -/
+example :
+    let sup : Node := { frame := [], cls := "Pa".toList, isInclude := false, isExtend := false }
+    let inc : Node := { frame := [], cls := "Mo".toList, isInclude := true, isExtend := false }
+    [sup, inc].foldl addParent [objectNode] = [sup, inc, objectNode] := by decide
+
 end RubyTi.C16
